@@ -39,6 +39,9 @@ fn init_logger() {
     log::set_max_level(log::LevelFilter::Info);
 }
 
+/// csvdump runs carry --verify when the world starts with the coin's real genesis block (set by the callers).
+static VERIFY: std::sync::atomic::AtomicBool = std::sync::atomic::AtomicBool::new(false);
+
 /// One complete in-process run under the controlled scheduler.
 fn run_once(data: &Path, dump: &Path, coin_name: &str, cb: &str, prefix: &[usize]) -> (RunResult, sched::Outcome) {
     run_once_mode(data, dump, coin_name, cb, prefix, 0)
@@ -52,10 +55,53 @@ fn run_once_mode(data: &Path, dump: &Path, coin_name: &str, cb: &str, prefix: &[
 
 /// `policy`: rule for the choice points after the prefix (worker-pool mode only; see rayon::pool::run_policy).
 fn run_once_policy(data: &Path, dump: &Path, coin_name: &str, cb: &str, prefix: &[usize], workers: usize, policy: usize) -> (RunResult, sched::Outcome) {
+    // Every execution runs in a forked child: the subject's driver ends failed runs with process::exit(1) and a bug may abort
+    // or crash - all of that is an observation (exit status / signal / what is in the dump folder), never the end of the explorer.
+    // (At this point the process has a single thread: the scheduler's threads live only inside one execution.)
+    let _ = std::fs::remove_dir_all(dump);
+    let out_path = dump.parent().unwrap().join("run.out.json");
+    let _ = std::fs::remove_file(&out_path);
+    let _ = std::io::stdout().flush();
+    let pid = unsafe { libc::fork() };
+    if pid < 0 {
+        return run_inline(data, dump, coin_name, cb, prefix, workers, policy);
+    }
+    if pid == 0 {
+        let (r, o) = run_inline(data, dump, coin_name, cb, prefix, workers, policy);
+        let doc = json!({"code": r.code, "stdout": r.stdout, "stderr": r.stderr, "choices": o.choices, "order": o.order, "regions": o.regions, "tasks": o.tasks, "diverged": o.diverged});
+        let _ = std::fs::write(&out_path, doc.to_string());
+        unsafe { libc::_exit(0) };
+    }
+    let mut status: libc::c_int = 0;
+    loop {
+        let r = unsafe { libc::waitpid(pid, &mut status, 0) };
+        if r == pid || (r < 0 && std::io::Error::last_os_error().raw_os_error() != Some(libc::EINTR)) {
+            break;
+        }
+    }
+    let files = refmodel::run::read_dir_files(dump);
+    if libc::WIFEXITED(status) && libc::WEXITSTATUS(status) == 0 {
+        if let Ok(doc) = std::fs::read_to_string(&out_path).map_err(|e| e.to_string()).and_then(|t| serde_json::from_str::<Value>(&t).map_err(|e| e.to_string())) {
+            let r = RunResult { code: doc["code"].as_i64().map(|c| c as i32), signal: None, stdout: doc["stdout"].as_str().unwrap_or("").to_string(), stderr: doc["stderr"].as_str().unwrap_or("").to_string(), files };
+            let o = sched::Outcome { choices: serde_json::from_value(doc["choices"].clone()).unwrap_or_default(), order: serde_json::from_value(doc["order"].clone()).unwrap_or_default(), regions: doc["regions"].as_u64().unwrap_or(0), tasks: doc["tasks"].as_u64().unwrap_or(0), diverged: doc["diverged"].as_str().map(|s| s.to_string()) };
+            return (r, o);
+        }
+    }
+    // the execution ended the process itself (exit / abort / signal) before it could report
+    let (code, signal) = if libc::WIFEXITED(status) { (Some(libc::WEXITSTATUS(status)), None) } else { (None, Some(libc::WTERMSIG(status))) };
+    (RunResult { code, signal, stdout: String::new(), stderr: format!("the execution terminated the process: exit {:?} signal {:?}", code, signal), files }, sched::Outcome { choices: vec![], order: vec![], regions: 0, tasks: 0, diverged: None })
+}
+
+fn run_inline(data: &Path, dump: &Path, coin_name: &str, cb: &str, prefix: &[usize], workers: usize, policy: usize) -> (RunResult, sched::Outcome) {
     let _ = std::fs::remove_dir_all(dump);
     std::fs::create_dir_all(dump).unwrap();
     LOGBUF.lock().unwrap().clear();
-    let mut argv: Vec<String> = vec!["rusty-blockparser".into(), "-c".into(), coin_name.into(), "-d".into(), data.display().to_string(), cb.into()];
+    // csvdump runs carry --verify (the merkle and prev-hash checks run inside the explored execution as well)
+    let mut argv: Vec<String> = vec!["rusty-blockparser".into()];
+    if cb == "csvdump" && VERIFY.load(std::sync::atomic::Ordering::SeqCst) {
+        argv.push("--verify".into());
+    }
+    argv.extend(["-c".to_string(), coin_name.to_string(), "-d".to_string(), data.display().to_string(), cb.to_string()]);
     if matches!(cb, "csvdump" | "unspentcsvdump" | "balances") {
         argv.push(dump.display().to_string());
     }
@@ -192,6 +238,7 @@ fn explore_subtree(data: &Path, dump: &Path, w: &WorldSpec, cb: &str, roots: &[V
 
 fn worker(spec_path: &str, out_path: &str) {
     init_logger();
+    VERIFY.store(true, std::sync::atomic::Ordering::SeqCst);
     let spec: Value = serde_json::from_str(&std::fs::read_to_string(spec_path).unwrap()).unwrap();
     let w = WorldSpec { name: spec["name"].as_str().unwrap().into(), coin: coin(spec["coin"].as_str().unwrap()).name, blocks: serde_json::from_value(spec["blocks"].clone()).unwrap() };
     let root = scratch();
@@ -260,6 +307,7 @@ fn c13() -> Report {
         rep.machinery(format!("scheduler canary: an order-dependent for_each over 3 items must show 6 outcomes, saw {}", c));
         return rep;
     }
+    VERIFY.store(true, std::sync::atomic::Ordering::SeqCst);
     let mut worlds: Vec<(WorldSpec, Vec<&'static str>)> = Vec::new();
     let fast = vec!["csvdump", "simplestats", "opreturn"];
     let all5 = vec!["csvdump", "simplestats", "opreturn", "unspentcsvdump", "balances"];
@@ -316,6 +364,9 @@ fn c13() -> Report {
                 rep.count(&format!("note:schedule-0-differs-from-model:{}", sig), 1);
             }
             let baseline = observe(&r, &wdir);
+            if r.code != Some(0) {
+                rep.machinery(format!("{} {}: schedule [] failed: {}", w.name, cb, r.stderr.chars().take(200).collect::<String>()));
+            }
             // replay determinism: the same schedule twice must give identical observations
             let (r2, _) = run_once(&data, &dump, w.coin, cb, &[]);
             if observe(&r2, &wdir) != baseline {
@@ -422,6 +473,7 @@ fn c13() -> Report {
     }
     rep.count("predicted_total_schedules", total_pred as u64);
     rep.bound = Value::Object(bound);
+    VERIFY.store(false, std::sync::atomic::Ordering::SeqCst); // the pool-mode worlds start with a synthetic block 0
     pool_part(&mut rep, &root);
     rep.assumptions = vec![
         "closures of the parallel iterators are atomic at item granularity (they contain no synchronisation); interleavings inside one closure are outside this explorer (data races are a compile error in safe Rust; a free-running real-rayon conformance pass is part of the E1 engine)".into(),
@@ -447,6 +499,7 @@ fn replay(path: &str) -> i32 {
     let data = root.join("data");
     World::simple(coin(w.coin), &chain.blocks, 0).materialise(&data).unwrap();
     let dump = root.join("dump");
+    VERIFY.store(true, std::sync::atomic::Ordering::SeqCst);
     let (r0, _) = run_once(&data, &dump, w.coin, cb, &[]);
     let base = observe(&r0, &root);
     let (r1, o1) = run_once(&data, &dump, w.coin, cb, &schedule);
@@ -581,6 +634,7 @@ fn pool_part(rep: &mut Report, root: &Path) {
 /// {2, 7, 4099}; x 1, 2 and 3 workers (quick: four of these combinations); x all five callbacks. Exhaustive over that
 /// family only, and labelled so.
 fn big_block_part(rep: &mut Report, root: &Path) {
+    VERIFY.store(true, std::sync::atomic::Ordering::SeqCst);
     let c = coin("bitcoin");
     let n_tx: usize = if is_thorough() { 36_900 } else { 4_100 };
     let mut cb = ChainBuilder::with_genesis(c);
